@@ -38,6 +38,18 @@ CHECKS = {
 	'C19': ('fault_enumeration', 'fault injection: writer child SIGKILLed immediately before/after every storage-library call (all enumerated), and at every pwrite64 via strace inject; reader outcome classified refused / loaded-equal / loaded-different',
 	        'For small and medium payloads every storage-call crash point (before and after) of both write paths, with and without compression, is enumerated, and every pwrite64 crash point through strace; multi-megabyte payloads are sampled densely at both ends in the quick tier and fully in the thorough tier; the signatures-create CLI is killed at its storage calls as well.',
 	        'Crash = process death with the OS up; torn writes and power-loss reordering are not modelled.', 'DESIGN.md 3/C19'),
+	'C03': ('exploration', 'runtime monitor: parent-pointer taxonomy model vs classify() on transient ORM objects (exhaustive lineages x thresholds x report flags x distance grid), random forests, end-to-end query()/gambit query on synthetic databases; monotonicity on real outputs',
+	        'Every lineage up to depth 5 (thorough 6) with thresholds in {None,.25,.5,.75} and all report-flag assignments is classified over a grid that contains every threshold and its float32 neighbours; closest match, prediction, primary match, next taxon, report taxon and monotonicity are compared with the model; random forests (depth up to 8+, ties for the minimum) and real databases with distances exactly on thresholds are sampled through the API and the CLI.',
+	        'Thresholds are float32-representable; any genome at the minimum distance is accepted as closest (tie rule is C09).', 'DESIGN.md 3/C03'),
+	'C04': ('exploration', 'runtime monitor: pairing invariant ids[sig_indices[i]] == id(genomes[i]) + per-genome distance oracle on databases with permuted / padded signature files for all four id attributes; negative cases must fail to load',
+	        'Synthetic databases with pairwise distinct signatures are written for each identifier attribute with sorted / reversed / random signature order, interleaved unrelated signatures and different value dtypes; after loading, the pairing is asserted and every distance reported through query() (all genomes requested, several chunk sizes) and the CLI archive is compared with the exact distance to that genome\'s own signature. Dropping each signature in turn, renaming an id, missing / misspelt / NULL / wrong-kind identifiers and 11 bad directory layouts must raise.',
+	        'Duplicate ids in a signature file are outside the domain.', 'DESIGN.md 3/C04'),
+	'C09': ('exploration', 'runtime monitor: (distance, reference order) oracle on every closest-genomes list from query() and the CLI, run in fresh processes under 4 NumPy CPU-dispatch settings x thread counts x chunk sizes with cross-setting digest comparison',
+	        'Tie-heavy databases with 1..500 references (identical and equidistant genomes, all-equal and distance-1 rows) are queried with N in {1,2,10,n,n+5}; each list must be the stable (distance, position) prefix with bit-exact distances and per-entry matched taxa, its head must be the closest match, CSV and JSON must name the same closest genome, and the lists must be identical across NPY_DISABLE_CPU_FEATURES settings (read back from NumPy), OpenMP thread counts and chunk sizes.',
+	        'CPU-feature dimension limited to what this CPU has and NumPy can switch off.', 'DESIGN.md 3/C09'),
+	'C10': ('exploration', 'runtime monitor: strict-consensus model vs consensus_taxon / classify(strict=True) for every forest on <=5 taxa x every matched subset x every order; every permutation of reference genomes for seeded worlds; end-to-end --strict with permuted signature files',
+	        'All 1296 rooted labelled forests on 5 taxa (plus n<=4; thorough: 6 taxa) x every non-empty matched subset x every order of encounter are pushed through the real consensus function and compared with the model (chain -> deepest, otherwise LCA of the most specific, none -> failed); classify(strict=True) is run on every permutation of up to 6 reference genomes for seeded forests biased to three-level conflicts and checked for prediction, success/error, conflict warning and primary match; gambit query --strict is run with the signature file order permuted.',
+	        'Warnings not judged when the prediction is None; any minimum accepted as primary match.', 'DESIGN.md 3/C10'),
 }
 
 NOT_APPLICABLE = []
